@@ -408,6 +408,9 @@ func predicate(cs CaseSpec, idx int, e errInfo) (fn test.AssertErrorFunc, text s
 		return test.ErrorHasPrefix(text), text
 	case 4:
 		text = marker(idx)
+		if trimmed := strings.TrimRight(e.exact, "\r\n"); !hit && e.isErr && trimmed != e.exact && idx%2 == 0 {
+			text = trimmed[len(trimmed)/2:] // the end of the text without its final line break is not the end of the text
+		}
 		if hit {
 			text = ""
 			if e.exact != "" {
@@ -505,6 +508,15 @@ type caseModel struct {
 	silent      bool // unsatisfied only through the silent ErrorMatch non-match
 }
 
+// eol: the multi-line error texts of odd tags end with a line break (as texts with a stack trace or a wrapped command's output
+// do); a predicate is about the text as it is, line break included.
+func eol(tag int, br string) string {
+	if tag%2 == 1 {
+		return br
+	}
+	return ""
+}
+
 func hookFails(h int) bool { return h == 2 || h == 3 }
 
 // effectiveAfter is the After hook that runs for the case: a Before hook of kind 5/6 replaces it for this run.
@@ -532,7 +544,7 @@ func errOf(cs CaseSpec, marshal bool, tag int) errInfo {
 		case cs.MErr == 3:
 			return errInfo{isErr: true, exact: "typed nil error", prefix: "typed nil error"}
 		case cs.MErr == 4:
-			return errInfo{isErr: true, exact: "boom line one " + t + "\nline two.", prefix: "boom line one " + t + "\nline two."}
+			return errInfo{isErr: true, exact: "boom line one " + t + "\nline two." + eol(tag, "\n"), prefix: "boom line one " + t + "\nline two." + eol(tag, "\n")}
 		case cs.MErr == 5:
 			return errInfo{isErr: true, prefix: "panic: boom again\n"}
 		case cs.MErr == 6:
@@ -554,7 +566,7 @@ func errOf(cs CaseSpec, marshal bool, tag int) errInfo {
 	case 3:
 		return errInfo{isErr: true, exact: "typed nil error", prefix: "typed nil error"}
 	case 4:
-		return errInfo{isErr: true, exact: "uboom line one " + t + "\r\nline two", prefix: "uboom line one " + t + "\r\nline two"}
+		return errInfo{isErr: true, exact: "uboom line one " + t + "\r\nline two" + eol(tag, "\r\n"), prefix: "uboom line one " + t + "\r\nline two" + eol(tag, "\r\n")}
 	case 5:
 		return errInfo{isErr: true, prefix: "panic: boom again\n"}
 	case 6:
@@ -669,7 +681,7 @@ func runList[T any](spec ListSpec, mkValue func(tag int, payload string, isNil b
 		case 2:
 			ms.panic = "pboom 100%d %v " + strconv.Itoa(tag)
 		case 4:
-			ms.err = errors.New("boom line one " + strconv.Itoa(tag) + "\nline two.")
+			ms.err = errors.New("boom line one " + strconv.Itoa(tag) + "\nline two." + eol(tag, "\n"))
 		case 5:
 			ms.panic = "boom again"
 		case 6:
@@ -706,7 +718,7 @@ func runList[T any](spec ListSpec, mkValue func(tag int, payload string, isNil b
 		case 2:
 			us.panic = "upboom 50% full " + strconv.Itoa(tag)
 		case 4:
-			us.err = errors.New("uboom line one " + strconv.Itoa(tag) + "\r\nline two")
+			us.err = errors.New("uboom line one " + strconv.Itoa(tag) + "\r\nline two" + eol(tag, "\r\n"))
 		case 5:
 			us.panic = "boom again"
 		case 6:
